@@ -148,8 +148,11 @@ pub fn run(args: &[String]) {
         }
       }
       for z in zs {
-        let v = ap.integration_constant(z, l_ref);
-        emit(json!({"kind": "interp", "values": fxs(&values), "z": fx(z), "v": fx(v)}));
+        let ap2 = ap.clone();
+        match guarded(move || ap2.integration_constant(z, l_ref)) {
+          Ok(v) => emit(json!({"kind": "interp", "values": fxs(&values), "z": fx(z), "v": fx(v)})),
+          Err(e) => emit(json!({"kind": "interp_panic", "values": fxs(&values), "z": fx(z), "msg": e})),
+        }
       }
     }
   }
@@ -294,7 +297,11 @@ pub fn run(args: &[String]) {
       (Apodization::Gaussian { fwhm: f1 }, Apodization::Gaussian { fwhm: f2 }) => ((*(*f1 / M) - *(*f2 / M)) / *(*f1 / M)).abs(),
       (a, b) => if a == b { 0. } else { 1. },
     };
-    emit(json!({"kind": "cfg", "ap": apod_json(&ap), "cfg_kind": js.get("kind").cloned().unwrap_or(Value::Null),
+    let fwhm_um = match &cfg {
+      ApodizationConfig::Gaussian { fwhm_um } => fx(*fwhm_um),
+      _ => Value::Null,
+    };
+    emit(json!({"kind": "cfg", "ap": apod_json(&ap), "cfg_kind": js.get("kind").cloned().unwrap_or(Value::Null), "fwhm_um": fwhm_um,
       "kind_str": ap.kind(), "back_kind": back.kind(), "rel_err": fx(rel), "same_window": same_window,
       "json_roundtrip_kind": from_js.map(|a| a.kind().to_string()).unwrap_or("Err".to_string())}));
   }
